@@ -33,3 +33,12 @@ Example c11_example :
   map o_log (snd (run ops)) =
     [[Log LNew 1]; [Log LNew 2]; [Log (LIO [105; 100; 10]) 1]; [Log (LIO [34; 0; 255]) 2]; [Log LKeyMissing 3]].
 Proof. vm_compute. reflexivity. Qed.
+
+From CRS Require Import Model.ProxyOut Proofs.ProxyOutProofs.
+(** Over the fine-grained model of proxyOut, for every interleaving, terminal
+    speed and cancellation point: the 'Shell I/O' output records are exactly
+    the chunks handed to the operator, in order - nothing undelivered is
+    logged, nothing delivered is missing. *)
+Theorem c11_queue_logged_is_delivered : forall cap reads es,
+  let s := prun cap (pinit reads) es in logged s = shown s ++ och s.
+Proof. exact logged_is_delivered. Qed.
